@@ -743,7 +743,12 @@ pub async fn step(env: &mut Env, line: &str) -> Answer {
                 None => "none".to_string(),
                 Some(n) => match sm.get_subscription(&n) {
                     Err(_) => "none".to_string(),
-                    Ok(sub) => match tokio::time::timeout(HANG_LIMIT, sub.get_stats()).await {
+                    Ok(sub) => {
+                        // GetStats is a mailbox turn: after it the actor takes whatever has expired by
+                        // now. Ask twice and report the second answer, i.e. the state after that.
+                        let _ = tokio::time::timeout(HANG_LIMIT, sub.get_stats()).await;
+                        settle().await;
+                        match tokio::time::timeout(HANG_LIMIT, sub.get_stats()).await {
                         Err(_) => "HANG".to_string(),
                         Ok(Err(_)) => "closed".to_string(),
                         Ok(Ok(s)) => format!(
@@ -752,7 +757,7 @@ pub async fn step(env: &mut Env, line: &str) -> Answer {
                             s.backlog_messages_count,
                             hex(s.topic_name.to_string().as_bytes())
                         ),
-                    },
+                    }},
                 },
             };
             ans(r)
